@@ -353,7 +353,32 @@ def run_part_d(case):
                         v("request-before-the-goaway-failed", f"{k}: {oo!r}", ctx)
                 await sc.api.close_pool()
 
+    async def main_rst():
+        # the server resets one of three concurrent streams after it has received the whole request and before any response
+        # header (any error code): the request may have been acted upon - it fails, and is on the wire once
+        if shape == "post-big":
+            return
+        cnt.setdefault("oracle_heads_at_most_once", 0)
+        for nth in (0, 1, 2):
+            for code in (8, 2, 7, 11):
+                script = {"data_chunk": 1000, "actions": [{"when": ("end", nth), "do": "rst", "code": code}]}
+                sc, outcomes, info, run = await run_many(flavor, ctype, shape, 3, 0, h2_script=script)
+                cnt["runs"] += 1
+                cnt["rst_before_response_runs"] = cnt.get("rst_before_response_runs", 0) + 1
+                ctx = {"case": case, "rst": {"nth": nth, "code": code}, "outcomes": {k: repr(o) for k, o in outcomes.items()}}
+                sigs.add(f"D-rst|{flavor}|{ctype}|{shape}|{nth}|{code}")
+                if run.kind == "hang":
+                    v("rst-hang", "callers hang after RST_STREAM", ctx)
+                    continue
+                heads = judge_common(sc, outcomes, cnt, v, ctx)
+                for tok, reqs in heads.items():
+                    if any(getattr(r_, "was_reset", False) for r_ in reqs) and outcomes.get(tok) is not None and outcomes[tok].kind == "ok":
+                        v("reset-request-answered", f"{tok}: the server reset the stream before any response header, the caller got "
+                          f"{outcomes[tok]!r} ({len(reqs)} transmissions)", ctx)
+                await sc.api.close_pool()
+
     run_flavor(flavor, None, main, seed=case["seed"])
+    run_flavor(flavor, None, main_rst, seed=case["seed"])
     return {"viol": viol, "counters": cnt, "sigs": sorted(sigs), "sample": None}
 
 
